@@ -40,7 +40,7 @@ CHECKS = {
              "years 1998..2051 x every ordered pair of query kinds as a two-step history on one processor plus A;B;A zone "
              "interleavings (5.9e6 histories quick); (2) a Hypothesis RuleBasedStateMachine over shared processors, managers "
              "with cache size 1..4 holding 2..8 zones, creation by name/id/index/info, queries incl. out-of-range/sentinel, "
-             "repeat-last and alternate rules, on an ASan+UBSan build. Every answer is compared with the same query on a "
+             "repeat-last, alternate and same-year-other-instant rules, on an ASan+UBSan build; the exhaustive part also takes same-year pairs of different instants. Every answer is compared with the same query on a "
              "brand-new processor; failures are collected, bucketed and minimised by delta debugging into replayable op lists.",
         note="Oracle is the fresh instance (tied to zic by C01/C02/C07). Instants within 1932..2067 + sentinel. Python "
              "ZoneSpecifier history independence is exercised in C04.",
@@ -49,7 +49,7 @@ CHECKS = {
         technique="enumerated registries x enumerated/generated queries vs linear-scan reference model, ASan/UBSan + hang timeout",
         text="Registries of size 0..40 (sorted prefix/tail/subset, shuffled, first/last pair swapped) and the two full registries "
              "of each database; queries: all present names/ids/indices, an absent name in every gap, below/above the ends, "
-             "prefixes, extensions, id+-1, 0, 0xFFFFFFFF, indices beyond the end, plus Hypothesis-drawn byte strings; through "
+             "prefixes, extensions, absent names constructed to have the djb2 hash of a present name, id+-1, 0, 0xFFFFFFFF, indices beyond the end, plus Hypothesis-drawn byte strings; through "
              "indexForZoneName/Id and createForZoneName/Id/Index. Exact agreement with a linear scan; 1 s per-lookup hang bound; "
              "sanitizers report reads outside the registry.",
         note="No duplicate entries are generated; sizes above 40 only via the full registries.",
@@ -60,7 +60,7 @@ CHECKS = {
              "brokers and a TU generated from zone_infos.h), every zonedbpy name, every baseline name, and the databases freshly "
              "compiled by tzcompiler.py from the reconstructed source: id == djb2(name), unique, equal across databases and the "
              "recorded baseline, registry strictly ascending and equal to the declared set, link address/name == target; "
-             "Hypothesis-generated names for hash_name and constructed djb2 collisions for _detect_hash_collisions. Complete over "
+             "Hypothesis-generated names for hash_name and constructed djb2 collisions (placed first, last and at drawn positions) for _detect_hash_collisions. Complete over "
              "the shipped data.",
         note="'Earlier releases' = baselines/zone_ids.tsv recorded from the shipped 1.2.1 tables.",
         design="2/C11"),
@@ -85,16 +85,16 @@ CHECKS = {
     "C14": dict(
         technique="bounded exhaustive enumeration of environment sequences + Hypothesis-generated histories, invariants over the logged history",
         text="Real SystemClockLoop with scripted reference/backup clocks that log every call. All sequences over {4-5 step sizes} x "
-             "{not ready, valid(const), valid(varying), invalid} to depth 4-5 (thorough 5-6) for 8 (config, wiring) combinations "
+             "{not ready, valid(const), valid(varying), valid(echo of the current reading), invalid} to depth 4-5 (thorough 5-6) for 8 (config, wiring) combinations "
              "(1.6e6 sequences quick), plus Hypothesis histories of 20..120 (300) steps over 5 configurations x 5 wirings. "
              "Invariants I1..I6 (apply valid response + backup write rule, failures never change clock/last-sync, request spacing "
              ">= retry period with doubling/cap/reset, bounded progress, no calls without a reference, readResponse only when ready).",
         note="Bounded depth for the exhaustive part; LP64 host: loop()'s unsigned long arithmetic does not wrap at 2^32 here.",
         design="2/C14", category="exploration"),
     "C03": dict(
-        technique="differential testing against an independent compiler (zic) over three source corpora incl. a Hypothesis grammar; accounting invariant over the transformer output",
+        technique="differential testing against an independent compiler (zic) over five source corpora (reconstructed, real 2025b, names, 576 enumerated era-boundary x rule sources, Hypothesis grammar); accounting invariant over the transformer output",
         text="Corpora: source reconstructed from the shipped tables, the vendored real 2025b release (443 zones; expansion validated "
-             "against zic on the original), and Hypothesis-generated small sources (both scopes, varying year ranges). For every "
+             "against zic on the original), a "names" source (duplicate normalised names, links to removed zones), 504 extended / 72 basic enumerated sources (hemisphere x next-era kind x STDOFF step x UNTIL form x AT suffix, era boundaries +-2 h / +-5 h around rule transitions in u/s/w) and Hypothesis-generated small sources (both scopes, varying year ranges). For every "
              "(source, scope): tzcompiler.py -> generated C++ tables compiled into the sweep driver (path A: 300 s stride + per-second "
              "windows at every oracle transition + field probes; thorough 60 s) and Extractor->Transformer->InlineGenerator->"
              "ZoneSpecifier in-process (path P) must equal zic's function over [start_year, until_year); every input zone/link/policy is "
@@ -102,7 +102,7 @@ CHECKS = {
              "sources go through path P one by one and through path A compiled together.",
         note="Zones with a truncation note are excluded from the semantic clause (counted: none in the corpora). 4 of 447 2025b zones "
              "need a multi-SAVE %z expansion and are left out. Generated zones whose zic output the two oracle readers disagree on are "
-             "discarded and counted. One known finding (basic era change into a policy era) has a fixed probe.",
+             "discarded and counted. The probes of the four repaired C03 findings run on every invocation.",
         design="2/C03", category="exploration"),
     "C19": dict(
         technique="Hypothesis-drawn and table-constructed (zone, range, interval) cases vs the third-party libraries' own transition tables; render/read-back round trip",
@@ -112,14 +112,14 @@ CHECKS = {
              "equals a fresh library evaluation, every qualifying table transition bracketed by an adjacent-minute A/B (a/b) pair, "
              "monthly and year-end samples; 10 data sets rendered by ArduinoValidationGenerator, compiled and read back.",
         note="For dateutil the bracketing clause excludes zones with negative DST, DST-only changes and the last table entry (library API "
-             "and table disagree there; counted). validator.zstdgenerator is checked on tools/zonedbpy zones against ZoneSpecifier's transitions (A/B pair at adjacent seconds) and pytz (fields).",
+             "and table disagree there; counted). validator.zstdgenerator is checked on tools/zonedbpy zones against ZoneSpecifier's transitions (A/B pair at adjacent seconds) and pytz (fields), including year-end cases constructed from the transition list.",
         design="2/C19"),
     "C20": dict(
         technique="metamorphic relations over compiler runs (repeat under another hash seed, import vs in-memory, counts vs entries, basic vs extended differential) + zic differential on the checked-in Python database",
-        text="Sources {reconstructed 2020d, real 2025b} x scope x language x two runs in fresh interpreters with different "
+        text="Sources {reconstructed 2020d, real 2025b, a seconds/odd-minute source} x scope x language x two runs in fresh interpreters with different "
              "PYTHONHASHSEED: R1 byte-identical files (canonical reason order), R2 imported zone_infos.py/zone_policies.py == "
              "InlineGenerator maps, R3 zones.txt == emitted set, R4 every stated count == counted entries (incl. kZoneRegistrySize), R5 "
-             "basic zones subset of extended with equal RLE streams through the two fresh builds, R6 every tools/zonedbpy zone x "
+             "basic zones subset of extended with equal RLE streams through the two fresh builds unless the zone carries a truncation note, R6 every tools/zonedbpy zone x "
              "2000..2037 vs zic on its recorded lines.",
         note="R1 ignores the invocation line (contains the output path).",
         design="2/C20"),
@@ -158,7 +158,7 @@ CHECKS = {
     "C15": dict(
         technique="exhaustive + Hypothesis-generated values vs format-string reference model, print/parse round trip",
         text="All 93,136 dates x 4 times and Hypothesis-drawn date-times, every offset -5999..5999 minutes, seed-drawn offset date-times "
-             "x ~60 offsets incl. -00:59..-00:01, every zone of both registries x 20 instants (direct and managed) and manual zones: "
+             "x ~60 offsets incl. -00:59..-00:01, every zone of both registries x 20 instants (direct and managed; the previous value is re-printed after each request), zoned date-times from components over years 1873..2127 and manual zones: "
              "printed text must equal the reference format exactly and parse back to an equal value (const char* and F() parsers); "
              "error placeholders; every proper prefix of a valid text per parser must give an error value.",
         note="Trusts the shim's Print/printPad2To. Malformed text of full length is documented as unspecified (memory safety: C09).",
